@@ -119,6 +119,15 @@ func (g *gen) bytesv() []byte {
 	return b
 }
 
+// msgv: a result / error message; often with '%' sequences, which nothing may interpret as a format
+func (g *gen) msgv() string {
+	s := string(g.bytesv())
+	if g.chance(0.4) {
+		s += []string{" 100% used", " %s", " %d%%", " %!v(MISSING)", "%", " %v %x %[1]d"}[g.pick(6)]
+	}
+	return s
+}
+
 func (g *gen) timev() time.Time {
 	switch g.pick(8) {
 	case 0:
